@@ -1060,6 +1060,36 @@ def check_C19(ctx):
     ctx.coverage["distinct_nontrivial"] += r["nontrivial"]
     ctx.coverage["samples"] += r["samples"][:5]
     ctx.add_stage("fuzz", {"inputs": r["inputs"], "stats": r["stats"]})
+    # resource specimens: nested counted repetitions whose priority arithmetic overflows long before the automaton
+    # could be built. Run in a subprocess under an address-space limit: a panic of the derive is a violation,
+    # running out of memory / time is the documented resource limit (not a verdict either way).
+    import resource
+    sdir = os.path.join(WORK, "c19-resource")
+    os.makedirs(sdir, exist_ok=True)
+    specimens = ['#[regex("((a{4294967295}){4294967295}){4294967295}")]', '#[regex("(((b{65536}){65536}){65536}){65536}x")]',
+                 '#[regex("c((d{4000000000}|e){4000000000}){4000000000}")]', '#[logos(skip("((f{4294967295}){4294967295}){4294967295}"))]']
+    exe = build_harness()
+    res_stats = {"panicked": 0, "resource_limit": 0, "finished": 0}
+    for k, attr in enumerate(specimens):
+        src = f"#[derive(Logos)]\n{attr if attr.startswith('#[logos') else ''}\nenum T {{\n    {attr if not attr.startswith('#[logos') else ''}\n    #[token(\"q\")]\n    A,\n}}\n" if attr.startswith('#[logos') else f"#[derive(Logos)]\nenum T {{\n    {attr}\n    A,\n    #[token(\"q\")]\n    B,\n}}\n"
+        fp = os.path.join(sdir, f"r{k}.rs")
+        open(fp, "w").write(src)
+        def limit():
+            resource.setrlimit(resource.RLIMIT_AS, (3 << 30, 3 << 30))
+        try:
+            p = subprocess.run([exe, "show", "--file", fp], env=env_base(), preexec_fn=limit, timeout=120, stdout=subprocess.PIPE, stderr=subprocess.STDOUT, text=True, errors="replace")
+            out = p.stdout
+        except subprocess.TimeoutExpired:
+            out = "TIMEOUT"
+        ctx.coverage["evaluations"] += 1
+        if "Panicked(" in out:
+            res_stats["panicked"] += 1
+            ctx.add_violation({"property": "C19", "level": "L", "rule": "derive-panicked", "detail": out[out.index("Panicked("):][:300], "definition": {"source": src}})
+        elif "memory allocation" in out or out == "TIMEOUT" or "Killed" in out:
+            res_stats["resource_limit"] += 1
+        else:
+            res_stats["finished"] += 1
+    ctx.add_stage("resource-specimens", res_stats)
     # real rustc, stable toolchain
     m = 160 if ctx.tier == "quick" else 1000
     rdir = os.path.join(WORK, "rsample")
